@@ -27,6 +27,48 @@ import sys
 import time
 
 
+def run_script(cfg, fams, perform_cached_doit, X) -> int:
+    """`script`: [[family, index, sub-directory], …] — exactly these calls, in this order, in THIS
+    process (expressions built here: a later process does not share objects with an earlier one).
+    One JSON line per call that is wrong; a final {"done": n}."""
+    import signal
+
+    class Stuck(BaseException):
+        pass
+
+    def on_alarm(signum, frame):
+        raise Stuck
+
+    signal.signal(signal.SIGALRM, on_alarm)
+    mode = os.environ.get("PYTHONHASHSEED", "unset")
+    n = 0
+    for step, (fam, i, sub) in enumerate(cfg["script"]):
+        expr = fams[fam][i]
+        expected = expr.doit()
+        d = os.path.join(cfg["dir"], sub)
+        os.makedirs(d, exist_ok=True)
+        n += 1
+        rec = {"family": fam, "expr": i, "dir": sub, "step": step, "mode": mode, "expr_str": str(expr)[:120]}
+        try:
+            signal.setitimer(signal.ITIMER_REAL, 30)
+            try:
+                r = perform_cached_doit(expr, d)
+            finally:
+                signal.setitimer(signal.ITIMER_REAL, 0)
+        except Stuck:
+            print(json.dumps({"fail": "stuck", **rec}), flush=True)
+            break
+        except Exception as ex:  # noqa: BLE001
+            print(json.dumps({"fail": "raised", "error": f"{type(ex).__name__}: {ex}"[:300], **rec}), flush=True)
+            continue
+        why = X.behaves_same(r, expected)
+        if why is not None:
+            print(json.dumps({"fail": "wrong value", "difference": why, "got": str(r)[:200],
+                              "expected": str(expected)[:200], **rec}), flush=True)
+    print(json.dumps({"done": n}), flush=True)
+    return 0
+
+
 def main() -> int:
     cfg = json.loads(sys.argv[1])
     try:  # a corrupt pickle can ask for absurd allocations: never let a worker eat the machine
@@ -46,6 +88,8 @@ def main() -> int:
     from tools.corr import C16_exprs as X
 
     fams = X.families()
+    if cfg.get("script"):
+        return run_script(cfg, fams, perform_cached_doit, X)
     exprs = [e for f in cfg["families"] for e in fams[f]]
     doits = [e.doit() for e in exprs]
     rng = random.Random(cfg["seed"])
